@@ -121,6 +121,11 @@ def register(R):
   def snd(it, a, k):
     return VOpaque(pair_snd(it.to_obj(a[0])))
 
+  @R.spec
+  def fst(it, a, k):
+    from pyvc.interp import pair_fst as _pf
+    return VOpaque(_pf(it.to_obj(a[0])))
+
   # ASSUMED (trusted) contracts: the lazily interleaved tee/zip of processed_with_inputs is outside the engine
   # (generators are verified as whole runs); for a one-output-per-input operator it pairs every remaining input,
   # in order, with what was computed from it, and may fail at any element.
@@ -150,6 +155,57 @@ def register(R):
       bounded='bounded_sink_on_failure',
       note='every record is forwarded unchanged, once, in order; the sink is closed exactly once whether the stream ends or an '
            'operator fails or the consumer closes the generator after any element (a generator that is merely dropped is finalised by the garbage collector: known finding D22)'))
+
+  # ---- filter / assign / apply: how the operators combine what was computed with the record ----------------------------
+  from pyvc.interp import pair_fst
+  from pyvc.builtins_ import opaque_fn
+  R.cls('FilterFn', dict(input_keys='tuple[]', output_keys='tuple[]', masks='tuple[]', input_argkeys='tuple[]',
+                         fn_batch_size='int', batch_size='int', ignore_error='bool'))
+  R.cls('Assign', dict(input_keys='tuple[]', output_keys='tuple[]', masks='tuple[]', input_argkeys='tuple[]',
+                       fn_batch_size='int', batch_size='int', ignore_error='bool'))
+  PAIRS = "last_result('processed_with_inputs')"
+
+  @R.spec
+  def verdict(it, a, k):
+    '''truthiness of the (single) value the predicate produced for a pair (outputs, input)'''
+    return VBool(truthy_of(item_of(pair_fst(it.to_obj(a[0])), 0)))
+
+  @R.spec
+  def kept_before(it, a, k):
+    return VInt(a[0].kept[0](it.to_int(a[1])))
+
+  @R.spec
+  def stop_of(it, a, k):
+    return VInt(a[0].kept[4])
+
+  @R.spec
+  def fails(it, a, k):
+    return VBool(z3.Select(a[0].fails, it.to_int(a[1])))
+
+  @R.spec
+  def assigned(it, a, k):
+    '''what self._get_outputs(outputs, record) returns (uninterpreted here; its contract is proved above)'''
+    f = it.fn_symbol(it.getattr_(a[0], '_get_outputs'))
+    return VOpaque(opaque_fn(2)(f, it.to_obj(a[1]), it.to_obj(a[2])))
+
+  R.add(Contract(
+      f'{TF}::FilterFn.iterate', P, types=dict(self='FilterFn', input_iterator='iter[obj]'), ret='iter[obj]', setup=_sink_setup,
+      modifies=['input_iterator'],
+      # keeps exactly the records whose predicate value is true, in order, unchanged (the record itself, not the value)
+      # (stop = the first position at which the operator pipeline fails, or the end of the stream)
+      ensures=[f'len(result.src) == kept_before(result, stop_of(result)) + ite(stop_of(result) < len({PAIRS}.src), 1, 0)',
+               f'forall(lambda j: implies(verdict({PAIRS}.src[j]), result.src[kept_before(result, j)] is input_iterator.src[pos0 + j]), 0, stop_of(result))',
+               f'forall(lambda j: kept_before(result, j + 1) == kept_before(result, j) + ite(verdict({PAIRS}.src[j]), 1, 0), 0, stop_of(result))',
+               f'forall(lambda j: not fails({PAIRS}, j), 0, stop_of(result))',
+               f'implies(stop_of(result) < len({PAIRS}.src), fails({PAIRS}, stop_of(result)) and fails(result, kept_before(result, stop_of(result))))'],
+      bounded='bounded_operator_chains', note='over the ASSUMED pairing of processed_with_inputs'))
+  R.add(Contract(
+      f'{TF}::Assign.iterate', P, types=dict(self='Assign', input_iterator='iter[obj]'), ret='iter[obj]', setup=_sink_setup,
+      modifies=['input_iterator'],
+      # one output record per input record, aligned: the outputs computed from a record are assigned INTO that record
+      ensures=[f'len(result.src) == len({PAIRS}.src)',
+               f'forall(lambda j: result.src[j] is assigned(self, fst({PAIRS}.src[j]), input_iterator.src[pos0 + j]), 0, len(result.src))'],
+      bounded='bounded_operator_chains', note='over the ASSUMED pairing of processed_with_inputs; _get_outputs is proved above'))
 
   # ---- build-time key validation ------------------------------------------------------------------------------------
   TM = 'ml_metrics/_src/chainables/transform.py'
